@@ -96,6 +96,17 @@ def eps_expected(kind, elems, boxes):
     return out
 
 
+FAR32 = (1.0, float(2 ** 24), -float(2 ** 24))
+
+
+def _all_even(x):
+    if x is None:
+        return True
+    if isinstance(x, (tuple, list)):
+        return all(_all_even(v) for v in x)
+    return x % 2 == 0
+
+
 def check_chunk(col, kind, elems, boxes, subtypes, seed, scalar_stride=1, chunk_id=0,
                 only=None, eps=True, T_fixed=None):
     """elems: list of lattice elements (may contain None and ()). boxes: ordered lattice boxes."""
@@ -109,6 +120,10 @@ def check_chunk(col, kind, elems, boxes, subtypes, seed, scalar_stride=1, chunk_
 
     for sti, st in enumerate(subtypes):
         T = T_fixed or L.transform_for(st, seed, salt=chunk_id)
+        if T_fixed is None and st == "float32" and (chunk_id + seed) % 3 == 0 and _all_even(elems):
+            # geometry at 2^24 + even (representable in float32), box corners at 2^24 + odd (not representable): a
+            # comparison carried out in float32 instead of float64 rounds the box onto the geometry
+            T = FAR32
         el = elems
         Ex = E
         keep_idx = None
@@ -220,7 +235,7 @@ def check_chunk(col, kind, elems, boxes, subtypes, seed, scalar_stride=1, chunk_
                                                             order=bi % 4, form="geoseries"),
                                   f"got {got.values.tolist()} expected {Ex[:, bi].tolist()}")
         # ---- scalar form: every element x every (strided) box
-        if sti == (seed + chunk_id) % len(subtypes) or st == "float64":
+        if sti == (seed + chunk_id) % len(subtypes) or st == "float64" or kind in ("point", "multipoint"):
             for i, e in enumerate(el):
                 if e is None:
                     continue
@@ -341,6 +356,8 @@ def run(ctx):
         j = (i + rot) % len(units)
         kind, el, boxes, stride = units[j]
         check_chunk(col, kind, el, boxes, L.SUBTYPES, ctx.seed, stride, chunk_id=j)
+        if kind in ("point", "multipoint") and _all_even(el):
+            check_chunk(col, kind, el, boxes, ["float32"], ctx.seed, stride, chunk_id=j, T_fixed=FAR32)
 
     core.pmap(ctx, work, len(units) + len(hu))
     ctx.rule = ("every element of the lattice families (points, multipoints <=3, all vertex sequences for "
